@@ -1,9 +1,21 @@
-FIX_COMMITS = ['ee63c4e', '8e72bfe', 'fac3c39', '803947b', '012bab8', 'dbf4700', '19f97fb', '925775e', 'cbd12ec', 'f843f54', '7a5e3b3', '35d5997', 'bbada35', '867f25c']
+FIX_COMMITS = ['ee63c4e', '8e72bfe', 'fac3c39', '803947b', '012bab8', 'dbf4700', '19f97fb', '925775e', 'cbd12ec', 'f843f54', '7a5e3b3', '35d5997', 'bbada35', '867f25c', '1e6d046', '9e14f80', '7c4e0e1', 'ac89fd3']
 TODO = 'check not built yet in this revision (work in progress; see DESIGN.md section 7 for the planned solver-based check)'
 NOT_APPLICABLE = {('C%02d' % i): TODO for i in range(1, 21)}
 R_NOTE = ('R-model: floats are mathematical reals, float literals are the decimal rationals written in the source, '
           'transcendental functions are uninterpreted with sound axiom instances; IEEE rounding is outside the claim. ')
 CHECKS = {
+    'C18': {
+        'text': 'geodepy.gnss (real source, pandas stubbed, in-memory files): set_creation_time runs with the clock a symbolic instant and its '
+                'formatted fields as decimal-text objects whose lengths are integer terms - the solver decides the result is always YY:DDD:SSSSS; '
+                'remove_stns_sinex runs on generated SINEX 2.02 files (1..3/4 stations, solution numbers 1..3, with/without velocities, L/U) with the '
+                'removal set a symbolic membership predicate so every subset is a path; outputs are parsed independently and compared with the '
+                'remaining estimates (renumbered), sub-matrix, header count, block structure; remove_velocity_sinex, remove_matrixzeros_sinex and '
+                'the estimate/matrix/site readers on the same shapes (sites include -0 degree fields).',
+        'design_ref': 'DESIGN.md section 7 C18',
+        'note': 'Parts (b)/(c) are bounded exhaustive path exploration over file shapes with concrete payloads; the solver contributes the clock claim '
+                'and path feasibility. Larger files, comment contents and malformed input are outside.',
+        'technique': 'symbolic execution of the real Python source (symbolic clock and removal set) + SMT (z3 LIA), witness replay on generated files',
+    },
     'C17': {
         'text': 'Bounded symbolic execution + SMT over a position-tracking virtual file: read_ntv2_file, interpolate_ntv2, ntv2_bilinear/ntv2_bicubic, '
                 'the interpolation kernels and transform.ntv2_2d (real source); header cells typed at the offsets the NTv2 format defines (symbolic '
